@@ -1371,6 +1371,54 @@ def gen_enc():
     return "\n".join(L)
 
 
+def gen_ring():
+    """C04: chunk size and guard operators of the unsafe output window (ringbuffer.rs)."""
+    rb = strip_comments(read("ruzstd/src/decoding/ringbuffer.rs"))
+    OPRE = r"(?P<op>>=|<=|==|!=|>|<)"
+    cbo = fn_body(rb, "copy_bytes_overshooting", "ring")
+    m = re.search(r'#\[cfg\(target_feature\s*=\s*"sse2"\)\]\s*type\s+CopyType\s*=\s*(u128|u64|u32|u16|u8)\s*;', cbo)
+    if not m:
+        raise ExtractError("extract:ring:CopyType under target_feature sse2")
+    copy_type = m.group(1)
+    chunk = int(copy_type[1:]) // 8
+    if not re.search(r"const\s+COPY_AT_ONCE_SIZE\s*:\s*usize\s*=\s*core::mem::size_of::<CopyType>\(\)\s*;", cbo):
+        raise ExtractError("extract:ring:COPY_AT_ONCE_SIZE = size_of::<CopyType>()")
+    if not re.search(r"let\s+min_buffer_size\s*=\s*usize::min\(\s*src\.1\s*,\s*dst\.1\s*\)\s*;", cbo):
+        raise ExtractError("extract:ring:min_buffer_size = min(src.1, dst.1)")
+    if not re.search(r"let\s+copy_multiple\s*=\s*copy_at_least\.next_multiple_of\(\s*COPY_AT_ONCE_SIZE\s*\)\s*;", cbo):
+        raise ExtractError("extract:ring:copy_multiple = copy_at_least.next_multiple_of(COPY_AT_ONCE_SIZE)")
+    m = re.search(r"if\s+min_buffer_size\s*(?P<op1>>=|<=|==|!=|>|<)\s*COPY_AT_ONCE_SIZE\s*&&\s*copy_at_least\s*(?P<op2>>=|<=|==|!=|>|<)\s*COPY_AT_ONCE_SIZE\s*\{", cbo)
+    if not m:
+        raise ExtractError("extract:ring:one-chunk guard of copy_bytes_overshooting")
+    G = []
+    G.append(("ringCboOneChunkMin", m.group("op1"), "ringbuffer.rs copy_bytes_overshooting `min_buffer_size OP COPY_AT_ONCE_SIZE` (one-chunk path, first conjunct)"))
+    G.append(("ringCboOneChunkN", m.group("op2"), "ringbuffer.rs copy_bytes_overshooting `copy_at_least OP COPY_AT_ONCE_SIZE` (one-chunk path, second conjunct)"))
+    G.append(("ringCboMultiMin", guard(cbo, r"if\s+min_buffer_size\s*" + OPRE + r"\s*copy_multiple\s*\{", "ring: min_buffer_size ? copy_multiple"),
+              "ringbuffer.rs copy_bytes_overshooting `min_buffer_size OP copy_multiple` (chunked path)"))
+    G.append(("ringReserveEnough", guard(fn_body(rb, "reserve", "ring"), r"if\s+free\s*" + OPRE + r"\s*amount\s*\{", "ring: reserve free ? amount"),
+              "ringbuffer.rs reserve `if free OP amount` (then-branch = nothing to do)"))
+    ra = fn_body(rb, "reserve_amortized", "ring")
+    if not re.search(r"usize::max\(\s*self\.cap\.next_power_of_two\(\)\s*,\s*\(self\.cap\s*\+\s*amount\)\.next_power_of_two\(\)\s*,?\s*\)\s*\+\s*1\s*;", ra):
+        raise ExtractError("extract:ring:new_cap = max(cap.npow2, (cap+amount).npow2) + 1")
+    ef = fn_body(rb, "extend_from_within_unchecked", "ring")
+    G.append(("ringEfwuCase1", guard(ef, r"if\s+self\.head\s*" + OPRE + r"\s*self\.tail\s*\{", "ring: efwu self.head ? self.tail"),
+              "ringbuffer.rs extend_from_within_unchecked `if self.head OP self.tail` (case 1)"))
+    G.append(("ringEfwuCase2", guard(ef, r"if\s+self\.head\s*\+\s*start\s*" + OPRE + r"\s*self\.cap\s*\{", "ring: efwu self.head + start ? self.cap"),
+              "ringbuffer.rs extend_from_within_unchecked `if self.head + start OP self.cap` (case 2)"))
+    G.append(("ringEfwuTailSplit", guard(ef, r"if\s+after_tail\s*" + OPRE + r"\s*len\s*\{", "ring: efwu after_tail ? len"),
+              "ringbuffer.rs extend_from_within_unchecked `if after_tail OP len` (second copy of case 1)"))
+    G.append(("ringEfwuStartSplit", guard(ef, r"if\s+after_start\s*" + OPRE + r"\s*len\s*\{", "ring: efwu after_start ? len"),
+              "ringbuffer.rs extend_from_within_unchecked `if after_start OP len` (second copy of case 3)"))
+    L = ["/- GENERATED by tools/extract.py from /repo — do not edit. -/", "namespace Zstd.Gen", ""]
+    L.append("/-- `ringbuffer.rs copy_bytes_overshooting`: `size_of::<CopyType>()` with `CopyType = " + copy_type + "` under `target_feature = \"sse2\"` -/")
+    L.append(f"def ringCopyChunk : Nat := {chunk}")
+    for name, op, where in G:
+        L.append(f"/-- `{where}`; source operator `{op}` -/")
+        L.append(f"def {name} (a b : Nat) : Bool := decide ({OPS[op]})")
+    L += ["", "end Zstd.Gen", ""]
+    return "\n".join(L)
+
+
 MODULES = {
     "Consts": gen_consts,
     "DecTables": gen_dectables,
@@ -1379,6 +1427,7 @@ MODULES = {
     "Fse": gen_fse,
     "Guards": gen_guards,
     "Headers": gen_headers,
+    "Ring": gen_ring,
     "Enc": gen_enc,
     "Huf": gen_huf,
     "Reset": gen_reset,
